@@ -22,7 +22,7 @@ RULE = ('formulas over the operator grammar rendered from generated ASTs (exhaus
         'non-trivial = at least two operators and the reference value differs from the value of the same token list '
         'under at least one wrong grouping (flat left-to-right, right-associative, unary-sign-loosest), or a literal '
         'with a fraction or exponent; distinct = distinct (formula text, cell values) JSON')
-ASSUMPTIONS = ['arithmetic on text and ordering of mixed kinds are outside the asserted domain; text forms under & are asserted: TRUE / FALSE, the empty text for a blank, 15 significant digits for numbers; for magnitudes of 1e15 and more (lane big) only that the joined text denotes the number to 15 digits, the spelling of the exponent is not asserted',
+ASSUMPTIONS = ['arithmetic on text and ordering of mixed kinds are outside the asserted domain; text forms under & are asserted: TRUE / FALSE, the empty text for a blank, 15 significant digits for numbers; from 1e15 on Excel\'s exponent form 2.5E+15 (lane big); exponent forms of small numbers are not asserted; arithmetic on whole numbers beyond 2**53 that are stored in the workbook is not asserted (only their text form)',
                'floating-point results compared with relative tolerance 1e-12 (the product normalises to 15 digits around %)',
                'division by an expression whose reference value is 0 is skipped']
 
@@ -454,7 +454,14 @@ def _level_operands(node):
 
 BIG_VALUES = [2.0 ** 53, 2.0 ** 53 + 2, 2.0 ** 60, 1e15, 1e16, 123456789012345680.0, 1e20, 1.5e20, -1e20, -2.0 ** 53, 1e100, 1e300]
 BIG_FORMS = ['text', 'text-units', 'plus-one-minus', 'ratio', 'times-one-text', 'minus-one-plus', 'half-double']
-BIG_SOURCES = ['override', 'literal', 'quotient']
+BIG_SOURCES = ['override', 'literal', 'quotient', 'cell-int']
+
+
+def excel_big_text(v):
+    """Excel's text form of a number of magnitude >= 1e15: 15 significant digits, mantissa without trailing zeros, E+exponent"""
+    m, e = ('%.14E' % v).split('E')
+    m = m.rstrip('0').rstrip('.')
+    return f'{m}E+{int(e)}'
 
 
 def big_cases():
@@ -462,43 +469,36 @@ def big_cases():
         for src in BIG_SOURCES:
             if src == 'literal' and (v < 0 or float('%r' % v) != v or 'e' not in repr(v)):
                 continue
+            if src == 'cell-int' and abs(v) >= 1e25:
+                continue
             for form in BIG_FORMS:
+                if src == 'cell-int' and form not in ('text', 'text-units'):
+                    continue   # arithmetic on stored whole numbers beyond 2**53 is not asserted (Excel itself keeps 15 digits of them)
                 yield {'kind': 'big', 'value': v, 'source': src, 'form': form}
 
 
 def _big_formula(c):
     v, src = c['value'], c['source']
-    x = {'override': 'A1', 'literal': repr(v).replace('+', ''), 'quotient': '(A1/A2)'}[src]
+    x = {'override': 'A1', 'cell-int': 'A1', 'literal': repr(v).replace('+', ''), 'quotient': '(A1/A2)'}[src]
     return {'text': f'={x}&""', 'text-units': f'={x}&" units"', 'plus-one-minus': f'=({x}+1)-{x}', 'ratio': f'={x}/{x}',
             'times-one-text': f'={x}*1&""', 'minus-one-plus': f'=({x}-1)+1-{x}', 'half-double': f'={x}/2*2-{x}'}[c['form']]
 
 
 def run_big(cases, rec=None):
-    """the operands are doubles: (x+1)-x is what double arithmetic gives, and the text that & joins denotes the number
-    (whatever the spelling of the exponent) to 15 significant digits"""
+    """the operands are doubles: (x+1)-x is what double arithmetic gives, and the text that & joins is Excel's text form of
+    the number (15 significant digits, E+exponent from 1e15 on)"""
     fails = []
     groups = {}
     for c in cases:
         groups.setdefault((c['value'], c['source']), []).append(c)
     for (v, src), g in groups.items():
         ov = [('S', 'A', '1', v)] if src == 'override' else [('S', 'A', '1', v * 4.0), ('S', 'A', '2', 4.0)] if src == 'quotient' else []
-        outs = wbk.eval_formulas([{'title': 'S', 'cells': {'A1': 5, 'A2': 7}}], [_big_formula(c) for c in g], first_col=3, ncols=10, overrides=ov)
+        outs = wbk.eval_formulas([{'title': 'S', 'cells': {'A1': int(v) if src == 'cell-int' else 5, 'A2': 7}}], [_big_formula(c) for c in g], first_col=3, ncols=10, overrides=ov)
         for c, o in zip(g, outs):
             form = c['form']
             if form in ('text', 'text-units', 'times-one-text'):
-                exp = {'$text-of': v}
-                ok = False
-                if o[0] == 'value' and type(o[1]) is str:
-                    t = o[1]
-                    if form == 'text-units':
-                        ok = t.endswith(' units')
-                        t = t[:-6]
-                    else:
-                        ok = True
-                    try:
-                        ok = ok and t == t.strip() and abs(float(t) - v) <= 1e-14 * abs(v)
-                    except ValueError:
-                        ok = False
+                exp = excel_big_text(v) + (' units' if form == 'text-units' else '')
+                ok = o[0] == 'value' and type(o[1]) is str and o[1] == exp
             else:
                 exp = {'plus-one-minus': (v + 1.0) - v, 'ratio': 1.0, 'minus-one-plus': (v - 1.0) + 1.0 - v, 'half-double': 0.0}[form]
                 ok = o[0] == 'value' and type(o[1]) in (int, float) and o[1] == exp
